@@ -254,14 +254,25 @@ void from_json(const JSON& object, RSCore& core) {
 
 void to_json(JSON& object, const TextInterpretation& text) {
   object = JSON::array();
-  for (const auto& textElement : text) {
-    object += textElement.second;
+  for (const auto& [id, name] : text) {
+    if (id == static_cast<int32_t>(std::size(object)) + 1) {
+      object += name; // Note: a bare name is numbered by its position when it is loaded
+    } else {
+      object += JSON{
+        {"id", id},
+        {"text", name}
+      };
+    }
   }
 }
 
 void from_json(const JSON& object, TextInterpretation& text) {
   for (auto it = begin(object); it != end(object); ++it) {
-    text.PushBack(it->get<std::string>());
+    if (it->is_string()) {
+      text.PushBack(it->get<std::string>());
+    } else {
+      text.SetInterpretantFor(it->at("id").get<int32_t>(), it->at("text").get<std::string>());
+    }
   }
 }
 
